@@ -109,7 +109,7 @@ var driverMethodNames = map[string]bool{"Prepare": true, "PrepareContext": true,
 	"OpenConnector": true, "NumInput": true, "IsValid": true, "CheckNamedValue": true, "Driver": true}
 
 func checkC16(r *core.Run) {
-	r.Explain = "Decided statically: (C16.notraffic) on every call chain from a database/sql/driver entry point of the proxy types to a remoting sink (BranchRegister, BranchReport, LockQuery, SendSyncRequest) at least one call site is control-dependent on an accepted global-transaction predicate; (C16.forward) pass-through methods hand the target driver their own ctx / query / args (or the repo's value<->named conversion of them), never a fresh context, and use the executor's result only on its nil-error edge; (C16.noextra) outside a global transaction no failure source of the proxy's own (SQL parser, table-meta lookup) lies on the path of a statement; (C16.execctx) every ExecContext literal handed to an executor sets the non-boolean fields the live AT executors read. (C16.dispatch) the AT executor dispatch constructs an executor that issues statements of its own (image queries, lock queries) only on paths where tm.IsGlobalTx holds for the context of the current call — state kept in a TransactionContext is not accepted there, because a prepared statement keeps the context it was prepared with. NOT decided: result equivalence of arbitrary statement programs (differential behaviour)."
+	r.Explain = "Decided statically: (C16.notraffic) on every call chain from a database/sql/driver entry point of the proxy types to a remoting sink (BranchRegister, BranchReport, LockQuery, SendSyncRequest) at least one call site is control-dependent on an accepted global-transaction predicate; (C16.forward) pass-through methods hand the target driver their own ctx / query / args (or the repo's value<->named conversion of them), never a fresh context, and use the executor's result only on its nil-error edge; (C16.noextra) outside a global transaction no failure source of the proxy's own (SQL parser, table-meta lookup) lies on the path of a statement; (C16.execctx) every ExecContext literal handed to an executor sets the non-boolean fields the live AT executors read. (C16.once) a connection method that installs a one-statement transaction context (createOnceTxContext answered true) puts a fresh local context back on every exit, failing ones included — otherwise the connection keeps AT/XA mode and the old xid after the global transaction and later local work is treated as a branch; (C16.dispatch) the AT executor dispatch constructs an executor that issues statements of its own (image queries, lock queries) only on paths where tm.IsGlobalTx holds for the context of the current call — state kept in a TransactionContext is not accepted there, because a prepared statement keeps the context it was prepared with. NOT decided: result equivalence of arbitrary statement programs (differential behaviour)."
 	r.Trusted = []string{"go/types, go/cfg", "CHA over repository types; database/sql/driver interfaces are the wrapped driver"}
 	w := r.W
 	pts := proxyTypes(w)
@@ -339,6 +339,8 @@ func checkC16(r *core.Run) {
 	c16ExecCtx(r)
 	c16Dispatch(r)
 	r.Floor("C16.dispatch", 5)
+	c16Once(r)
+	r.Floor("C16.once", 6)
 	r.Floor("C16.notraffic", 25)
 	r.Floor("C16.forward", 20)
 	r.Floor("C16.noextra", 1)
@@ -595,6 +597,61 @@ func c16Dispatch(r *core.Run) {
 			r.Sites++
 			r.Check(cp.Before.Has("true:isglobal"), "C16.dispatch", core.ShortKey(dispatch.Obj)+" -> "+strings.TrimPrefix(t, "ctor:")+" only inside a global transaction", w.Pos(cp.Call.Pos()),
 				"constructed under tm.IsGlobalTx(ctx) of this call", "an executor that issues its own image / lock statements can be chosen although tm.IsGlobalTx(ctx) is not known to hold for this call (a TransactionContext captured by a prepared statement may be stale): outside a global transaction the proxy then sends statements the bare driver would not")
+		}
+	}
+}
+
+// c16Once: the one-statement transaction context is dropped on every exit of the method that installed it.
+func c16Once(r *core.Run) {
+	w := r.W
+	for _, f := range w.SortedFuncs() {
+		if f.Pkg.PkgPath != pDSSQL || w.IsTestFile(f.Decl.Pos()) || core.RecvNamed(f.Obj) == nil {
+			continue
+		}
+		calls := false
+		for _, cs := range w.Calls(f) {
+			if cs.Static != nil && cs.Static.Name() == "createOnceTxContext" {
+				calls = true
+			}
+		}
+		if !calls {
+			continue
+		}
+		r.Fn(f)
+		sp := &flow.Spec{W: w, Depth: 0, Split: []flow.Tag{"true:once", "false:once"},
+			Classify: func(pkg *packages.Package, call *ast.CallExpr, callee *types.Func) []flow.Tag {
+				if callee != nil && callee.Name() == "createOnceTxContext" {
+					return []flow.Tag{"once"}
+				}
+				return nil
+			},
+			AssignTags: func(pkg *packages.Package, as *ast.AssignStmt) []flow.Tag {
+				if len(as.Lhs) == 1 && len(as.Rhs) == 1 {
+					if sel, ok := ast.Unparen(as.Lhs[0]).(*ast.SelectorExpr); ok && sel.Sel.Name == "txCtx" {
+						if c, ok := ast.Unparen(as.Rhs[0]).(*ast.CallExpr); ok {
+							if g := core.Callee(pkg.TypesInfo, c); g != nil && g.Name() == "NewTxCtx" {
+								return []flow.Tag{"reset"}
+							}
+						}
+					}
+				}
+				return nil
+			}}
+		res := sp.Analyze(f)
+		n := 0
+		for _, ex := range res.Exits {
+			if !ex.St.Maybe("once") {
+				continue // left before the context could have been installed
+			}
+			n++
+			r.Sites++
+			role := exitRole(ex, func(t string) bool { return strings.HasSuffix(t, ":once") })
+			// either nothing was installed (the answer was false) or the fresh context is put back
+			r.Check(ex.St.Has("false:once") || ex.St.Has("reset") || ex.St.Has("defer:reset"), "C16.once", core.ShortKey(f.Obj)+" "+role+" drops the one-statement transaction context", w.Pos(ex.Pos),
+				"fresh context put back (deferred or inline)", "this exit leaves the one-statement transaction context (AT/XA mode, the global xid) on the connection: a later local transaction on the same connection is handled as a branch of a finished global transaction instead of being passed to the driver")
+		}
+		if n == 0 {
+			r.Undecided("C16.once", core.ShortKey(f.Obj)+" exits after createOnceTxContext answered true", w.Pos(f.Decl.Pos()), "no exit found on the true edge of createOnceTxContext")
 		}
 	}
 }
